@@ -12,6 +12,7 @@ import (
 	"math/rand"
 	"os"
 	"strings"
+	"unicode/utf16"
 )
 
 type gen struct {
@@ -488,6 +489,112 @@ func (g *gen) program() string {
 	}
 }
 
+// random JSON texts (C11): documents written with random escape forms, number spellings and whitespace
+func (g *gen) jsonText(v interface{}, d int) string {
+	ws := func() string { return g.pick("", "", "", " ", "\n", "\t ", "  ") }
+	switch x := v.(type) {
+	case nil:
+		return "null"
+	case bool:
+		if x {
+			return "true"
+		}
+		return "false"
+	case float64:
+		switch g.r.Intn(6) {
+		case 0:
+			return fmt.Sprintf("%ve0", x)
+		case 1:
+			if x == float64(int64(x)) {
+				return fmt.Sprintf("%d.0", int64(x))
+			}
+		case 2:
+			if x == float64(int64(x)) && x != 0 {
+				return fmt.Sprintf("%de-0", int64(x))
+			}
+		}
+		b, _ := json.Marshal(x)
+		return string(b)
+	case string:
+		var sb strings.Builder
+		sb.WriteByte('"')
+		for _, r := range x {
+			switch {
+			case r == '"' || r == '\\':
+				sb.WriteByte('\\')
+				sb.WriteRune(r)
+			case r < 32:
+				fmt.Fprintf(&sb, "\\u%04x", r)
+			case g.chance(0.2) && r < 0x10000:
+				fmt.Fprintf(&sb, "\\u%04X", r)
+			case g.chance(0.3) && r >= 0x10000:
+				r1, r2 := utf16.EncodeRune(r)
+				fmt.Fprintf(&sb, "\\u%04x\\u%04x", r1, r2)
+			case r == '/' && g.chance(0.5):
+				sb.WriteString("\\/")
+			default:
+				sb.WriteRune(r)
+			}
+		}
+		sb.WriteByte('"')
+		return sb.String()
+	case []interface{}:
+		parts := make([]string, len(x))
+		for i := range x {
+			parts[i] = ws() + g.jsonText(x[i], d+1) + ws()
+		}
+		return "[" + ws() + strings.Join(parts, ",") + "]"
+	case map[string]interface{}:
+		parts := []string{}
+		for k, e := range x {
+			parts = append(parts, ws()+g.jsonText(k, d+1)+ws()+":"+ws()+g.jsonText(e, d+1))
+		}
+		return "{" + strings.Join(parts, ",") + ws() + "}"
+	}
+	return "null"
+}
+
+func (g *gen) jsonLeaf() interface{} {
+	switch g.r.Intn(10) {
+	case 0:
+		return nil
+	case 1:
+		return g.r.Intn(2) == 0
+	case 2, 3:
+		return float64(g.r.Intn(2000)-1000) / float64([]int{1, 2, 4, 8, 10, 100}[g.r.Intn(6)])
+	case 4:
+		return float64(g.r.Int63n(1 << 60))
+	default:
+		pool := []rune("ab \"\\/$.[]{}`'é€😀\n\t\u0001Zz09")
+		n := g.r.Intn(6)
+		rs := make([]rune, n)
+		for i := range rs {
+			rs[i] = pool[g.r.Intn(len(pool))]
+		}
+		return string(rs)
+	}
+}
+
+func (g *gen) jsonDoc(d int) interface{} {
+	if d <= 0 || g.chance(0.3) {
+		return g.jsonLeaf()
+	}
+	if g.chance(0.5) {
+		n := g.r.Intn(4)
+		a := make([]interface{}, n)
+		for i := range a {
+			a[i] = g.jsonDoc(d - 1)
+		}
+		return a
+	}
+	m := map[string]interface{}{}
+	for i, n := 0, g.r.Intn(4); i < n; i++ {
+		k, _ := g.jsonLeaf().(string)
+		m[k+string(rune('a'+i))] = g.jsonDoc(d - 1)
+	}
+	return m
+}
+
 // compile-mode inputs for C08: random bytes, token soup, and random edits of valid programs
 var soupTokens = []string{"a", "$x", "$", "$$", "1", "1.5", "1e3", "\"s\"", "'s'", "`n`", "/r/", "/r/i", "(", ")", "[", "]", "{", "}", ".", "..", ",", ";", ":", ":=",
 	"?", "+", "-", "*", "**", "/", "%", "|", "=", "!=", "<", "<=", ">", ">=", "~>", "^", "&", "and", "or", "in", "true", "false", "null", "function", "λ", "!", "~", "@", "#", "é", "\\", "\"", "'", "`", " ", "\n", "<n:n>", "<a<s>>"}
@@ -561,6 +668,26 @@ func genMain(args []string) {
 		g.vars = []string{"v", "w"}
 	}
 	for i := 0; i < *n; i++ {
+		if *prof == "jsontext" {
+			txt := g.jsonText(g.jsonDoc(3), 0)
+			if g.chance(0.15) && len(txt) > 0 { // a malformed neighbour
+				b := []byte(txt)
+				i := g.r.Intn(len(b))
+				switch g.r.Intn(3) {
+				case 0:
+					b = append(b[:i:i], b[i+1:]...)
+				case 1:
+					b[i] = "\\\"u1e-.,:]}"[g.r.Intn(11)]
+				default:
+					b = b[:i]
+				}
+				txt = string(b)
+			}
+			b, _ := json.Marshal(M{"id": *start + i, "fam": *fam, "mode": "denote", "bytes": bytesJSON([]byte(txt))})
+			w.Write(b)
+			w.WriteByte('\n')
+			continue
+		}
 		if *prof == "progtext" {
 			// valid generated programs of every family, as compile-mode cases (C04)
 			saved := g.prof
